@@ -52,7 +52,7 @@ def run():
     corp = Corpus(chk)
     r = common.rng("c09")
     if chk.quick:
-        triples = corp.triples(n_enum=520, n_random=140, salt="c09")
+        triples = corp.triples(n_enum=600, n_random=140, salt="c09")
         tasks = make_tasks(triples, r, n_cli=3, all_cli_for=4)
     else:
         triples = corp.triples(n_enum=6000, n_random=2500, random_maxedits=5, salt="c09")
